@@ -896,7 +896,7 @@ pub fn run(opts: &Opts) -> i32 {
                         format!("ttl={}", ttl_opt.unwrap_or_else(|| rng.below(2))),
                         format!("close={}", rng.below(2)),
                     ],
-                    90,
+                    270,
                 );
                 if g.as_deref().map_or(true, |s| !s.starts_with("tracegen-done")) {
                     out.emit3(&format!("note tracegen-failed {:?}", g), "note", "FAIL workload-child-failed-or-hung");
@@ -971,7 +971,7 @@ pub fn run_lag(opts: &Opts) -> i32 {
                 // CPUs visible to the child decide how many write-buffer shards and workers it builds
                 let cpus = *rng.pick(&[1u64, 2, 3, 4, 6, 8, 12, 16]);
                 let first = rng.below(17 - cpus);
-                let settle = *rng.pick(&[1500u64, 2000]);
+                let settle = *rng.pick(&[3000u64, 3500]);
                 let noise = rng.below(2);
                 let burst = rng.chance(1, 4);
                 let args = vec![
@@ -1001,7 +1001,7 @@ pub fn run_lag(opts: &Opts) -> i32 {
                     .and_then(|mut c| loop {
                         match c.try_wait() {
                             Ok(Some(_)) => break c.wait_with_output().ok().map(|o| String::from_utf8_lossy(&o.stdout).trim().to_string()),
-                            Ok(None) if start.elapsed().as_secs() > 120 => {
+                            Ok(None) if start.elapsed().as_secs() > 400 => {
                                 let _ = c.kill();
                                 let _ = c.wait();
                                 break Some("TIMEOUT".to_string());
@@ -1209,7 +1209,7 @@ pub fn run_f1(opts: &Opts) -> i32 {
         std::fs::write(&p1, &img1).unwrap();
         let work = format!("{p1}.rec");
         std::fs::copy(&p1, &work).unwrap();
-        let r1 = run_child(&["probe".into(), format!("path={work}"), "ttl=1".into(), "allow=0".into(), "noworkload=1".into(), format!("rectrace={work}")], 120).unwrap_or_default();
+        let r1 = run_child(&["probe".into(), format!("path={work}"), "ttl=1".into(), "allow=0".into(), "noworkload=1".into(), format!("rectrace={work}")], 360).unwrap_or_default();
         let line1 = r1.splitn(3, ' ').nth(2).unwrap_or("").to_string();
         let v1 = crash_verdict(&t, &states, &ack, *s1 + 1, &line1);
         let (now1, rs1, _) = (0u64, 0u64, 0u64);
@@ -1284,7 +1284,7 @@ pub fn run_recrash(opts: &Opts) -> i32 {
                         format!("ttl={ttl}"),
                         "close=0".into(),
                     ],
-                    90,
+                    270,
                 );
                 if g.as_deref().map_or(true, |s| !s.starts_with("tracegen-done")) {
                     out.emit3(&format!("note tracegen-failed {:?}", g), "note", "FAIL workload-child-failed-or-hung");
@@ -1311,7 +1311,7 @@ pub fn run_recrash(opts: &Opts) -> i32 {
                     std::fs::copy(&p1, &work).unwrap();
                     let r1 = run_child(
                         &["probe".into(), format!("path={work}"), format!("ttl={ttl}"), "allow=0".into(), "noworkload=1".into(), format!("rectrace={work}")],
-                        30,
+                        180,
                     )
                     .unwrap_or_default();
                     let line1 = r1.splitn(3, ' ').nth(2).unwrap_or("").to_string();
@@ -1423,7 +1423,7 @@ pub fn run_fault(opts: &Opts) -> i32 {
                 };
                 // fault-free run: how many device calls does this workload make?
                 let base0 = format!("{keep}/f{sh}_{w}_base.feox");
-                let g = run_child(&common(&base0), 90);
+                let g = run_child(&common(&base0), 270);
                 let ncalls = match g.as_deref().and_then(|_| load_trace(&base0)) {
                     Some(t) => t.evs.iter().filter(|e| matches!(e, Ev::W { .. } | Ev::F { .. })).count() as u64,
                     None => {
@@ -1460,7 +1460,7 @@ pub fn run_fault(opts: &Opts) -> i32 {
                     let path = format!("{keep}/f{sh}_{w}_{fi}.feox");
                     let mut args = common(&path);
                     args.extend(extra_args);
-                    let g = run_child(&args, 120);
+                    let g = run_child(&args, 360);
                     if g.as_deref().map_or(false, |s| s.starts_with("tracegen-open-error")) {
                         // the failure hit the creation of the device: reported as an error, nothing to recover
                         out.emit3(&format!("note fault-run {label} open-reported-error"), "note", "ok");
